@@ -196,7 +196,7 @@ Proof. intros H. unfold sel. cbn. rewrite H. reflexivity. Qed.
 Definition ctl (r : raft) :=
   (r_state r, r_lead_transferee r, r_election_elapsed r, r_election_timeout r,
    r_term r, r_vote r, r_id r, r_leader_id r, r_check_quorum r, r_pre_vote r,
-   r_heartbeat_timeout r, r_heartbeat_elapsed r, r_promotable r).
+   r_heartbeat_timeout r, r_heartbeat_elapsed r, conf_of r).
 
 Definition cf (ty : N) (r r' : raft) : Prop :=
   sel ty (r_msgs r') = sel ty (r_msgs r) /\ ctl r' = ctl r.
@@ -483,4 +483,227 @@ Section Helpers.
            (split; [|split; [eassumption|split; [eassumption|split; [eassumption|eassumption]]]]).
       all: cf_solve.
   Qed.
+
+  Lemma handle_heartbeat_response_cf r m r' : handle_heartbeat_response r m = Ok r' -> cf ty r r'.
+  Proof.
+    intros H. unfold handle_heartbeat_response in H.
+    destruct (get_pr r (m_from m)) as [pr|]; [|inversion H; apply cf_refl].
+    inv_ok H; cf_fwd; cf_solve.
+  Qed.
+
+  Lemma handle_snapshot_status_cf r m r' : handle_snapshot_status r m = Ok r' -> cf ty r r'.
+  Proof. intros H. unfold handle_snapshot_status in H. inv_ok H; cf_solve. Qed.
+
+  Lemma handle_unreachable_cf r m r' : handle_unreachable r m = Ok r' -> cf ty r r'.
+  Proof.
+    intros H. unfold handle_unreachable in H. inv_ok H; [|apply cf_refl].
+    destruct (pstate_eqb (pr_state p) Replicate); cf_solve.
+  Qed.
+
+  Lemma filter_conf_changes_cf ents : forall r info i r' ents' ok,
+    filter_conf_changes r ents info i = (r', ents', ok) -> cf ty r r'.
+  Proof.
+    induction ents as [|e rest IH]; intros r info i r' ents' ok H; cbn [filter_conf_changes] in H.
+    - inversion H; apply cf_refl.
+    - destruct (negb (is_conf_entry e)).
+      { destruct (filter_conf_changes r rest _ (i + 1)) as [[ra ea] oa] eqn:Ea.
+        inversion H; subst. eapply IH; eassumption. }
+      match type of H with (if ?c then _ else _) = _ => destruct c end;
+        [inversion H; apply cf_refl|].
+      match type of H with (if ?c then _ else _) = _ => destruct c end.
+      + destruct (filter_conf_changes r rest _ (i + 1)) as [[ra ea] oa] eqn:Ea.
+        inversion H; subst. eapply IH; eassumption.
+      + match type of H with (let '(_, _) := ?e in _) = _ => destruct e as [[ra ea] oa] eqn:Ea end.
+        inversion H; subst. apply IH in Ea. eapply cf_trans; [|exact Ea]. cf_solve.
+  Qed.
+
+  (* ---------------------------------------------------------------- *)
+  (* weak frame, for functions that may change role/term/timers: the [ty]-messages and
+     the static configuration are unchanged, and a pending transfer is never created
+     or retargeted (it can only stay or be cleared) *)
+  Definition cfg (r : raft) :=
+    (r_election_timeout r, r_id r, r_check_quorum r, r_pre_vote r, r_heartbeat_timeout r).
+
+  Definition wf (r r' : raft) : Prop :=
+    sel ty (r_msgs r') = sel ty (r_msgs r) /\ cfg r' = cfg r /\
+    (forall t, r_lead_transferee r' = Some t -> r_lead_transferee r = Some t).
+
+  Lemma wf_refl r : wf r r. Proof. repeat split; auto. Qed.
+  Lemma wf_trans a b c : wf a b -> wf b c -> wf a c.
+  Proof. unfold wf. intros (A & B & C0) (D & E & F). repeat split; try congruence. auto. Qed.
+  Lemma cf_wf r r' : cf ty r r' -> wf r r'.
+  Proof.
+    unfold cf, wf, ctl, cfg. intros [A B]. inversion B. repeat split; try congruence.
+  Qed.
+  Lemma wf_same r r1 r2 :
+    cfg r2 = cfg r1 -> r_msgs r2 = r_msgs r1 ->
+    (r_lead_transferee r2 = r_lead_transferee r1 \/ r_lead_transferee r2 = None) ->
+    wf r r1 -> wf r r2.
+  Proof.
+    unfold wf. intros A B C0 (D & E & F). repeat split; try congruence.
+    intros t Ht. apply F. destruct C0; congruence.
+  Qed.
+
+  Ltac wf_peel :=
+    lazymatch goal with
+    | |- wf _ (put_pr ?r1 _ _) => apply (wf_same _ r1); [reflexivity|reflexivity|left; reflexivity|]; wf_peel
+    | |- wf _ (set_conf_prs ?r1 _ _) => apply (wf_same _ r1); [reflexivity|reflexivity|left; reflexivity|]; wf_peel
+    | |- wf _ (set _ _ ?r1) =>
+        apply (wf_same _ r1); [reflexivity|reflexivity|first [left; reflexivity|right; reflexivity]|]; wf_peel
+    | _ => idtac
+    end.
+
+  Ltac wf_chain :=
+    wf_peel;
+    first [ assumption | apply wf_refl
+          | match goal with
+            | H : wf ?a ?b |- wf _ ?b => eapply wf_trans; [|exact H]; wf_chain
+            | H : cf _ ?a ?b |- wf _ ?b => eapply wf_trans; [|exact (cf_wf _ _ H)]; wf_chain
+            end ].
+
+  Lemma reset_wf r t r' : reset r t = Ok r' -> wf r r'.
+  Proof.
+    unfold reset. intros H.
+    destruct (negb (r_term r =? t)); cbn in H;
+    match type of H with match ?d with _ => _ end = _ => destruct d end;
+      try discriminate; inversion H; subst; repeat split; cbn; congruence.
+  Qed.
+
+  Lemma become_follower_wf r t l r' : become_follower r t l = Ok r' -> wf r r'.
+  Proof.
+    unfold become_follower. intros H. inv_bind H. inversion H; subst; clear H.
+    apply reset_wf in Hx. wf_chain.
+  Qed.
+
+  Lemma become_candidate_wf r r' : become_candidate r = Ok r' -> wf r r'.
+  Proof.
+    unfold become_candidate. intros H. destruct (is_leader r); [discriminate|].
+    inv_bind H. inversion H; subst; clear H. apply reset_wf in Hx. wf_chain.
+  Qed.
+
+  Lemma become_pre_candidate_wf r r' : become_pre_candidate r = Ok r' -> wf r r'.
+  Proof.
+    unfold become_pre_candidate. intros H. destruct (is_leader r); [discriminate|].
+    inversion H; subst; clear H. wf_chain.
+  Qed.
+
+  Lemma become_leader_wf r r' : become_leader r = Ok r' -> wf r r'.
+  Proof.
+    unfold become_leader. intros H. destruct (role_eqb (r_state r) Follower); [discriminate|].
+    inv_bind H. apply reset_wf in Hx.
+    match type of H with (if ?c then _ else _) = _ => destruct c end; [discriminate|].
+    match type of H with match ?d with _ => _ end = _ => destruct d end; [|discriminate].
+    inv_bind H. destruct x0 as [r6 ok]. destruct ok; [|discriminate]. inversion H; subst; clear H.
+    apply append_entry_cf in Hx0. apply cf_wf in Hx0.
+    eapply wf_trans; [|exact Hx0]. wf_chain.
+  Qed.
+  Hypothesis HtyAR : (MsgAppendResponse =? ty) = false.
+  Hypothesis HtyHR : (MsgHeartbeatResponse =? ty) = false.
+  Hypothesis HtyV : (MsgRequestVote =? ty) = false.
+
+  Ltac wf_fwd :=
+    repeat match goal with
+    | H : reset _ _ = Ok _ |- _ => apply reset_wf in H
+    | H : become_follower _ _ _ = Ok _ |- _ => apply become_follower_wf in H
+    | H : become_candidate _ = Ok _ |- _ => apply become_candidate_wf in H
+    | H : become_pre_candidate _ = Ok _ |- _ => apply become_pre_candidate_wf in H
+    | H : become_leader _ = Ok _ |- _ => apply become_leader_wf in H
+    end.
+
+  Lemma poll_gen_wf rc r from v r' res :
+    (forall a b, rc a = Ok b -> wf a b) ->
+    poll_gen rc r from v = Ok (r', res) -> wf r r'.
+  Proof.
+    intros Hrc H. unfold poll_gen in H. cbn zeta in H.
+    match type of H with match ?d with _ => _ end = _ => destruct d end.
+    - inversion H; subst; clear H. wf_chain.
+    - inv_bind H. inversion H; subst; clear H. wf_fwd. wf_chain.
+    - match type of H with (if ?c then _ else _) = _ => destruct c end.
+      + inv_bind H. inversion H; subst; clear H. apply Hrc in Hx. wf_chain.
+      + inv_bind H. inv_bind H. inversion H; subst; clear H. wf_fwd. cf_fwd. wf_chain.
+  Qed.
+
+  Lemma send_vote_requests_wf vote_msg t cmt cmt_term tl :
+    (vote_msg =? ty) = false ->
+    forall ids r r', send_vote_requests ids r vote_msg t cmt cmt_term tl = Ok r' -> cf ty r r'.
+  Proof.
+    intros Hv. induction ids as [|id rest IH]; intros r r' H; cbn [send_vote_requests] in H.
+    - inversion H; apply cf_refl.
+    - destruct (id =? r_id r); [eapply IH; exact H|].
+      inv_bind H. inv_bind H. apply IH in H. eapply cf_trans; [|exact H].
+      eapply send_cf; [exact Hx0|]. destruct tl; exact Hv.
+  Qed.
+
+  Lemma campaign_real_wf tl r r' : campaign_real tl r = Ok r' -> wf r r'.
+  Proof.
+    unfold campaign_real. intros H. inv_bind H. inv_bind H. destruct x0 as [r2 res].
+    apply poll_gen_wf in Hx0; [|intros a b K; discriminate K]. wf_fwd.
+    destruct res.
+    - inv_bind H. apply send_vote_requests_wf in H; [|exact HtyV]. wf_chain.
+    - inv_bind H. apply send_vote_requests_wf in H; [|exact HtyV]. wf_chain.
+    - inversion H; subst. wf_chain.
+  Qed.
+
+  Lemma poll_wf r from v r' res : poll r from v = Ok (r', res) -> wf r r'.
+  Proof. unfold poll. apply poll_gen_wf. intros a b. apply campaign_real_wf. Qed.
+
+  Lemma campaign_pre_wf r r' :
+    (MsgRequestPreVote =? ty) = false -> campaign_pre r = Ok r' -> wf r r'.
+  Proof.
+    intros Hpv H. unfold campaign_pre in H. inv_bind H. inv_bind H. destruct x0 as [r2 res].
+    apply poll_wf in Hx0. wf_fwd.
+    destruct res.
+    - inv_bind H. apply send_vote_requests_wf in H; [|exact Hpv]. wf_chain.
+    - inv_bind H. apply send_vote_requests_wf in H; [|exact Hpv]. wf_chain.
+    - inversion H; subst. wf_chain.
+  Qed.
+
+  Lemma hup_wf r tl r' :
+    (tl = true \/ (MsgRequestPreVote =? ty) = false) -> hup r tl = Ok r' -> wf r r'.
+  Proof.
+    intros Htl H. unfold hup in H. destruct (is_leader r); [inversion H; apply wf_refl|].
+    inv_bind H. destruct x; [inversion H; apply wf_refl|].
+    destruct tl; [eapply campaign_real_wf; exact H|].
+    destruct Htl as [K|K]; [discriminate|].
+    destruct (r_pre_vote r); [eapply campaign_pre_wf; eassumption|eapply campaign_real_wf; exact H].
+  Qed.
+
+  Lemma maybe_commit_by_vote_wf r m r' : maybe_commit_by_vote r m = Ok r' -> wf r r'.
+  Proof.
+    intros H. unfold maybe_commit_by_vote in H.
+    destruct ((m_commit m =? 0) || (m_commit_term m =? 0)); [inversion H; apply wf_refl|].
+    destruct ((m_commit m <=? committed (r_log r)) || is_leader r); [inversion H; apply wf_refl|].
+    inv_bind H. destruct x as [l' b].
+    destruct (negb b); [inversion H; subst; wf_chain|].
+    match type of H with (if ?c then _ else _) = _ => destruct c end; [inversion H; subst; wf_chain|].
+    inv_bind H. destruct x; [|inversion H; subst; wf_chain].
+    wf_fwd. wf_chain.
+  Qed.
+
+  Lemma send_request_snapshot_cf r r' : send_request_snapshot r = Ok r' -> cf ty r r'.
+  Proof.
+    unfold send_request_snapshot. intros H. inv_bind H. destruct x; [|discriminate].
+    eapply send_cf; [exact H|exact HtyAR].
+  Qed.
+
+  Lemma handle_append_entries_cf r m r' : handle_append_entries r m = Ok r' -> cf ty r r'.
+  Proof.
+    intros H. unfold handle_append_entries in H.
+    destruct (negb (r_pending_request_snapshot r =? INVALID_INDEX));
+      [eapply send_request_snapshot_cf; exact H|].
+    destruct (m_index m <? committed (r_log r)); [eapply send_cf; [exact H|exact HtyAR]|].
+    inv_bind H. destruct x as [l' res]. destruct res as [[c0 last_idx]|].
+    - apply send_cf in H; [|exact HtyAR]. cf_solve.
+    - inv_bind H. destruct x as [hi [ht|]]; [|discriminate].
+      apply send_cf in H; [|exact HtyAR]. cf_solve.
+  Qed.
+
+  Lemma handle_heartbeat_cf r m r' : handle_heartbeat r m = Ok r' -> cf ty r r'.
+  Proof.
+    intros H. unfold handle_heartbeat in H. inv_bind H.
+    match type of H with (if ?c then _ else _) = _ => destruct c end.
+    - apply send_request_snapshot_cf in H. cf_solve.
+    - apply send_cf in H; [|exact HtyHR]. cf_solve.
+  Qed.
+
 End Helpers.
